@@ -57,6 +57,10 @@ theorem status_all : ∀ n : Fin 256,
     ((UInt8.ofNat n.val ||| 1).toNat ≠ 0 ∧ Gen.C01.ackBit (UInt8.ofNat n.val ||| 1).toNat ≠ 0) ∧
     ((UInt8.ofNat n.val &&& 0xFE).toNat ≠ 0 → Gen.C01.ackBit (UInt8.ofNat n.val &&& 0xFE).toNat = 0) := by decide +kernel
 
+theorem status_fields : ∀ n : Fin 256,
+    (Gen.C01.ackBit n.val ≠ 0) = (n.val % 2 = 1) ∧ (Gen.C01.powerDetBit n.val ≠ 0) = (n.val / 2 % 2 = 1) ∧
+    Gen.C01.retryField n.val = n.val / 16 := by decide +kernel
+
 /-! ### lifted to frames -/
 
 theorem norm_stamp (f : Bytes) {u d : Nat} (hu : u ≤ 1) (hd : d ≤ 1) : norm (stamp f u d) = norm f := by
